@@ -127,7 +127,7 @@ func c52(c *Ctx) {
 		}
 		c.Check(ipCall != nil && domCall != nil, "matcher-lists", up+": one match call per matcher list", fn.Pos(), "", "the .match calls are not over cfg.ipMatchers[...] and cfg.domainMatchers[...]")
 		if ipCall != nil && domCall != nil {
-			ipT := Term(ipCall.Call.Args[2])
+			ipT := Term(BaselineArgs(&ipCall.Call)[2])
 			c.Guard(up, Calls(".match").Where("over ipMatchers", func(in ssa.Instruction) bool { return in == ssa.Instruction(ipCall) }), ipT+" != nil")
 			noIPFact := true
 			for _, f := range FactStringsAt(domCall) {
@@ -141,7 +141,7 @@ func c52(c *Ctx) {
 				if cl == domCall {
 					which = "domainMatchers"
 				}
-				a := cl.Call.Args
+				a := BaselineArgs(&cl.Call)
 				c.Check(Term(a[0]) == "ToLower(TrimSpace(SplitHostPort($0)#0))" && Term(a[1]) == "SplitHostPort($0)#1", "matcher-args", up+": "+which+" receive (lower-cased trimmed host, port)", cl.Pos(), "", "arguments are ("+Term(a[0])+", "+Term(a[1])+")")
 				leaves := map[string]bool{}
 				for _, l := range PhiLeaves(a[2]) {
@@ -233,7 +233,7 @@ func c52(c *Ctx) {
 		if lower != nil && cidr != nil && ip != nil && shp != nil {
 			p := Term(lower)
 			c.Check(strings.HasPrefix(p, "ToLower(TrimSpace(Split($r.Config.NoProxy,\",\")["), "entry", ini+": each comma-separated NoProxy entry is trimmed and lower-cased", lower.Pos(), "", "entry is "+p)
-			c.Check(Term(cidr.Call.Args[0]) == p && Term(shp.Call.Args[0]) == p, "entry", ini+": ParseCIDR and SplitHostPort see the normalised entry", cidr.Pos(), "", "")
+			c.Check(Term(BaselineArgs(&cidr.Call)[0]) == p && Term(BaselineArgs(&shp.Call)[0]) == p, "entry", ini+": ParseCIDR and SplitHostPort see the normalised entry", cidr.Pos(), "", "")
 			star := p + ` == "*"`
 			c.Guard(ini, Stores(P+"config.ipMatchers").Where("allMatch", func(in ssa.Instruction) bool {
 				return strings.Join(m1MatcherTypes(in.(*ssa.Store).Val), "+") == "allMatch"
